@@ -551,8 +551,9 @@ class OptimizationProblem(DataStoreAccessor, metaclass=ABCMeta):
 
         a, A, b, B = all_bounds
 
-        assert isinstance(a, type(b))
-        assert isinstance(A, type(B))
+        # Scalars may be a mix of int and float
+        assert isinstance(a, type(b)) or all(isinstance(v, (int, float)) for v in (a, b))
+        assert isinstance(A, type(B)) or all(isinstance(v, (int, float)) for v in (A, B))
 
         # Merge the bounds
         m, M = None, None
